@@ -1,29 +1,4 @@
-mod campaign;
-mod cases;
-mod e1;
-mod e2;
-mod e3;
-mod expect;
-mod mock_http;
-mod props;
-mod report;
-mod smoke;
-mod tape;
-mod world;
-
-use std::path::PathBuf;
-
-pub fn verif_root() -> PathBuf {
-    std::env::var("VERIF_ROOT").map(PathBuf::from).unwrap_or_else(|_| PathBuf::from("/verif"))
-}
-
-pub fn work_dir() -> PathBuf {
-    verif_root().join("work")
-}
-
-pub fn repo_dir() -> PathBuf {
-    std::env::var("VERIF_REPO").map(PathBuf::from).unwrap_or_else(|_| PathBuf::from("/repo"))
-}
+use verif_harness::*;
 
 fn main() {
     let args: Vec<String> = std::env::args().collect();
